@@ -106,7 +106,9 @@ pub enum BlockSpec {
     DelayF32 { delay: u32 },
     /// Delay<u8> with set_delay(): `early` delays set before anything ran, `mid = (at, d)` once
     /// exactly `at` samples have passed (harness composite `derived::DelayRetune`)
-    DelayRetuneU8 { d0: u16, early: Vec<u16>, mid: Option<(u16, u16)> },
+    /// `mid_pre`: further set_delay() values applied right before the final mid value, with
+    /// no work() in between (the delay line only sees the last one)
+    DelayRetuneU8 { d0: u16, early: Vec<u16>, mid: Option<(u16, u16)>, #[serde(default)] mid_pre: Vec<u16> },
     ResampU8 { interp: u16, deci: u16 },
     ResampF32 { interp: u16, deci: u16 },
     FirF32 { taps: TapSpec, deci: u8 },
@@ -249,8 +251,9 @@ pub fn spec_strategy() -> BoxedStrategy<BlockSpec> {
             prop_oneof![0u16..6, 0u16..60, 0u16..3000],
             prop::collection::vec(prop_oneof![0u16..6, 0u16..60, 0u16..3000], 0..3),
             prop::option::weighted(0.7, (prop_oneof![0u16..10, 0u16..600, 0u16..6000], prop_oneof![0u16..6, 0u16..60, 0u16..3000])),
+            prop_oneof![3 => Just(Vec::new()), 2 => prop::collection::vec(prop_oneof![0u16..6, 0u16..60, 0u16..3000], 1..3)],
         )
-            .prop_map(|(d0, early, mid)| DelayRetuneU8 { d0, early, mid }),
+            .prop_map(|(d0, early, mid, mid_pre)| DelayRetuneU8 { d0, early, mid, mid_pre }),
         (1u16..13, 1u16..13).prop_map(|(interp, deci)| ResampU8 { interp, deci }),
         (1u16..13, 1u16..13).prop_map(|(interp, deci)| ResampF32 { interp, deci }),
         (tapspec_strategy(200), 1u8..9).prop_map(|(taps, deci)| FirF32 { taps, deci }),
@@ -402,7 +405,7 @@ impl BlockSpec {
             | IirC32 { .. } | MapAddConstF32 { .. } | BurstTaggerU32 { .. } | TeeU8 | TeeF32 => TagRule::Same,
             SkipU8 { skip } | SkipF32 { skip } => TagRule::SkipBy(*skip as usize),
             DelayU8 { delay } | DelayF32 { delay } => TagRule::Shift(*delay as usize),
-            DelayRetuneU8 { d0, early, mid } => {
+            DelayRetuneU8 { d0, early, mid, .. } => {
                 let d_eff = early.last().copied().unwrap_or(*d0) as usize;
                 match mid {
                     None => TagRule::Shift(d_eff),
@@ -594,11 +597,12 @@ impl BlockSpec {
             SkipU8 { skip } => one!(U8, |r| Skip::new(r, skip as usize)),
             SkipF32 { skip } => one!(F32, |r| Skip::new(r, skip as usize)),
             DelayU8 { delay } => one!(U8, |r| Delay::new(r, delay as usize)),
-            DelayRetuneU8 { d0, early, mid } => one!(U8, |r| crate::derived::DelayRetune::new(
+            DelayRetuneU8 { d0, early, mid, mid_pre } => one!(U8, |r| crate::derived::DelayRetune::new(
                 r,
                 d0 as usize,
                 &early.iter().map(|x| *x as usize).collect::<Vec<_>>(),
-                mid.map(|(a, d)| (a as usize, d as usize))
+                mid.map(|(a, d)| (a as usize, d as usize)),
+                &mid_pre.iter().map(|x| *x as usize).collect::<Vec<_>>()
             )),
             DelayF32 { delay } => one!(F32, |r| Delay::new(r, delay as usize)),
             ResampU8 { interp, deci } => one!(U8, |r| RationalResampler::new(r, interp as usize, deci as usize).expect("resampler")),
